@@ -242,6 +242,20 @@ func oracle(w *world, res result) [][2]string {
 		anyRemoteKO = anyRemoteKO || w.remoteKO[i]
 	}
 	enriched := sc.api != "match"
+	// every matcher that ran was shown exactly the records the index report
+	// stands for (one per environment / repository mention); after an error
+	// some matchers never ran
+	wantRecs := recMultiset(wantRecords(sc))
+	allRan := !enriched || res.err == nil
+	for i := range sc.matchers {
+		if len(w.shown[i]) == 0 && (len(wantRecs) == 0 || !allRan) {
+			continue
+		}
+		if d := diffRecords(wantRecs, recMultiset(w.shown[i])); d != "" {
+			bad("", "matcher-%d-was-not-shown-the-index-report's-records: %s", i, d)
+			break
+		}
+	}
 	if enriched {
 		if res.err != nil && res.vr != nil {
 			bad("", "error-returned-together-with-a-report")
@@ -274,6 +288,10 @@ func oracle(w *world, res result) [][2]string {
 		}
 	}
 	vr := res.vr
+	// the reference union, computed from the scenario alone
+	if nf := refCheck(sc, vr, sc.ctx == "cancelled", enriched, bad); !enriched && nf != res.nerrs {
+		bad("", "Match-joined-%d-errors-but-%d-matchers-must-fail", res.nerrs, nf)
+	}
 	// ids resolve
 	for pk, ids := range vr.PackageVulnerabilities {
 		for _, id := range ids {
@@ -423,6 +441,12 @@ func runScenario(r *hx.Run, rnd *hx.Rand, sc *scenario, procs []int, tag string)
 			ls := sc.lines(tag)
 			for _, l := range ls[:len(ls)-1] {
 				r.Op(l, "ok", false)
+			}
+			// IndexRecords itself, against the model and against the reference
+			got := recsOfReal(w.ir.IndexRecords())
+			r.Op("records", canonRecs(got), len(got) > 1)
+			if d := diffRecords(recMultiset(wantRecords(sc)), recMultiset(got)); d != "" {
+				r.Fail("", fmt.Sprintf("IndexRecords: %s scenario=[%s]", d, strings.Join(sc.lines(tag)[1:], " | ")))
 			}
 			r.Op(ls[len(ls)-1], obs, true)
 			classify(r, sc, w, res, obs)
